@@ -119,6 +119,11 @@ def merge_results(parts):
         res.out_of_reach = res.out_of_reach or p.out_of_reach
         res.error = res.error or p.error
         res.replay_meta = res.replay_meta or p.replay_meta
+        if getattr(p, "reach_inputs", None) is not None and getattr(res, "reach_inputs", None) is None:
+            res.reach_inputs = p.reach_inputs
+        sm = getattr(res, "smt2", None) or {}
+        sm.update(getattr(p, "smt2", {}) or {})
+        res.smt2 = sm
     return res
 
 
@@ -178,6 +183,20 @@ def verify_function(program, registry, spec, opts=None, work=None, expand_to=Non
             res.out_of_reach = "recursion depth"
         except Exception as e:  # engine crash: never a verdict
             res.error = f"{type(e).__name__}: {e}\n" + traceback.format_exc()[-2500:]
+        if ctx.forked_child:
+            # this process was forked at a branch inside the path it just finished: it keeps only what it explores itself
+            keep_meta = (res.file_sha, res.ast_hash, res.replay_meta, res.expected_covers)
+            out_of_reach, error, reach_inputs = res.out_of_reach, res.error, getattr(res, "reach_inputs", None)
+            res = FunctionResult(spec.label)
+            res.pending = []
+            res.file_sha, res.ast_hash, res.replay_meta, res.expected_covers = keep_meta
+            res.out_of_reach, res.error = out_of_reach, error
+            if reach_inputs is not None:
+                res.reach_inputs = reach_inputs
+            work = []
+            seen = 1
+            t0 = time.time()
+            q0, s0 = STATS.queries, STATS.solver_s
         for ob in ctx.obligations:
             res.add(ob, seen)
         res.covers |= ctx.covers
@@ -191,7 +210,34 @@ def verify_function(program, registry, spec, opts=None, work=None, expand_to=Non
     res.wall_s = time.time() - t0
     res.queries = STATS.queries - q0
     res.solver_s = STATS.solver_s - s0
+    from . import forker
+
+    if forker.ENABLED or forker.IS_CHILD:
+        parts = [res]
+        for child in forker.collect():
+            if child is None:
+                res.error = res.error or "a forked explorer process died without a result"
+            else:
+                parts.append(child)
+        if len(parts) > 1:
+            res = merge_results(parts)
+        if forker.IS_CHILD:
+            strip_formulas(res)
+            forker.child_exit(res)
     return res
+
+
+def strip_formulas(r):
+    """Make a FunctionResult picklable: SMT-LIB2 text samples instead of z3 formulas."""
+    r.smt2 = getattr(r, "smt2", {})
+    for name, rec in r.obligations.items():
+        f = rec.pop("formula", None)
+        if f is not None and len(r.smt2) < 2:
+            s = z3.Solver()
+            for x in f:
+                s.add(x)
+            r.smt2[name] = s.to_smt2()[:6000]
+    return r
 
 
 def run_path(I: Interp, ctx: PathCtx, spec, fi, res: FunctionResult):
